@@ -179,6 +179,12 @@ func walkDoc(pj *simdjson.ParsedJson, o walkOpt) (docs []*ref.Node, err error) {
 				return nil, err
 			}
 			docs = append(docs, n)
+			if o.reuseDst {
+				// leave the long-lived destination somewhere else than Root() put it (a few
+				// entries further, with a pending skip of 1 or 2 or of a whole container)
+				for k := len(docs) % 4; k > 0 && inner.Advance() != simdjson.TypeNone; k-- {
+				}
+			}
 		}
 	case 1:
 		var ierr error
